@@ -447,6 +447,65 @@ theorem fromConvexPolyline_spec (points rp rn : Array (V2 K)) (h : fromConvexPol
         · simp [s1, s2]
       · cases h
 
+/-- size of the normal buffer built by the `for i1 in 0..points.len()` loop -/
+theorem polylineNormals_size (points : Array (V2 K)) :
+    ∀ (k : Nat) (acc out : Array (V2 K)), polylineNormals points k acc = some out → out.size = acc.size + k := by
+  intro k
+  induction k with
+  | zero => intro acc out hh; simp [polylineNormals] at hh; subst hh; simp
+  | succ k ih =>
+    intro acc out hh
+    unfold polylineNormals at hh
+    simp only at hh
+    split at hh
+    · cases hh
+    · have := ih _ _ hh; simp at this; omega
+
+/-- the normal loop fails only at an edge `points[i] → points[(i+1) % n]` without a unit normal -/
+theorem polylineNormals_none (points : Array (V2 K)) :
+    ∀ (k : Nat) (acc : Array (V2 K)), k ≤ points.size → polylineNormals points k acc = none →
+      ∃ i, i < points.size ∧ C10.ccwFaceNormal2 (pt points i) (pt points ((i + 1) % points.size)) = none := by
+  intro k
+  induction k with
+  | zero => intro acc _ hh; simp [polylineNormals] at hh
+  | succ k ih =>
+    intro acc hk hh
+    unfold polylineNormals at hh
+    simp only at hh
+    split at hh
+    · rename_i hn
+      exact ⟨points.size - (k + 1), by omega, hn⟩
+    · exact ih _ (by omega) hh
+
+/-- `from_convex_polyline_unmodified` keeps every point (at least three) and has one normal per point -/
+theorem fromConvexPolylineUnmodified_spec (points rp rn : Array (V2 K))
+    (h : fromConvexPolylineUnmodified points = some (rp, rn)) :
+    rp = points ∧ 3 ≤ rp.size ∧ rn.size = rp.size := by
+  unfold fromConvexPolylineUnmodified at h
+  split at h
+  · cases h
+  · rename_i hsz
+    split at h
+    · cases h
+    · rename_i normals hnm
+      simp only [Option.some.injEq, Prod.mk.injEq] at h
+      obtain ⟨rfl, rfl⟩ := h
+      have := polylineNormals_size points _ _ _ hnm
+      refine ⟨rfl, by omega, by simpa using this⟩
+
+/-- `from_convex_polyline_unmodified` fails only for fewer than three points or an edge without a unit normal -/
+theorem fromConvexPolylineUnmodified_none (points : Array (V2 K)) (h : fromConvexPolylineUnmodified points = none) :
+    points.size ≤ 2 ∨
+      ∃ i, i < points.size ∧ C10.ccwFaceNormal2 (pt points i) (pt points ((i + 1) % points.size)) = none := by
+  unfold fromConvexPolylineUnmodified at h
+  split at h
+  · left; assumption
+  · right
+    split at h
+    · rename_i hnm
+      exact polylineNormals_none points _ _ (le_refl _) hnm
+    · cases h
+
 end prune
 
 end C16
